@@ -25,7 +25,8 @@ ASSUMPTIONS = ["pairwise model: default policies (deep hashes, arrays concatenat
 
 def _left(a, b, c):
     return cmap(("a", cmap(("p", a), ("q", 1))), ("b", cmap(("p", b))), ("w", cseq(cmap(("n", 1), ("p", a)), cmap(("n", 2), ("p", c)))),
-                ("l", cseq(a, b)), ("k", 0))
+                ("l", cseq(a, b)), ("k", 0), ("t", cmap(("x", cmap(("p", a))), ("y", cmap(("p", c))))),
+                ("u", cseq(cseq(a), cseq(c))))
 
 
 # name -> (mergeat, rhs kind, targets(plain_left, a, b, c) -> list of trails or None for "must be refused")
@@ -39,6 +40,10 @@ def _targets(name, pl, a, b, c):
         return t or None
     if name == "aoh_all":
         return [("w", 0), ("w", 1)]
+    if name == "twins":
+        return [("t", "x"), ("t", "y")]
+    if name == "twin_lists":
+        return [("u", 0), ("u", 1)]
     if name == "nomatch":
         return None
     raise AssertionError(name)
@@ -46,7 +51,7 @@ def _targets(name, pl, a, b, c):
 
 CASES = {
     "single": ("/a", "map"), "nested_list": ("/l", "list"), "aoh_search": ("/w[p>2]", "map"), "aoh_all": ("/w/*", "map"),
-    "nomatch": ("/w[p>100]", "map"), "list_scalar": ("/l", "scalar"),
+    "nomatch": ("/w[p>100]", "map"), "list_scalar": ("/l", "scalar"), "twins": ("/t/*", "map"), "twin_lists": ("/u/*", "list"),
 }
 
 
